@@ -55,9 +55,9 @@ def claims(pid, op, kind, wf):
     if pid == "C10":
         return kind == "struct" and op in ("new", "insert", "insert_collide", "bad", "destroy", "transfer", "transfer_within", "setref")
     if pid == "C11":
-        return op == "clone" and kind == "struct"
+        return op == "clone" and kind in ("struct", "uid-presence")
     if pid == "C12":
-        return kind == "uid" or op == "decoded"
+        return kind.startswith("uid") or op == "decoded"
     return False
 
 
